@@ -137,7 +137,10 @@ def run_miri(seeds, threads, ops, par):
     while pending or running:
         while pending and len(running) < (1 if first else par):
             s = pending.pop(0)
-            env = dict(env0, MIRIFLAGS="-Zmiri-seed=%d %s" % (s, MIRI_FLAGS))
+            # odd seeds: weak-memory emulation off, so that a relaxed load observes the latest store and a
+            # too-weak publication is reported deterministically; even seeds keep the emulation on
+            extra = " -Zmiri-disable-weak-memory-emulation" if s % 2 == 1 else ""
+            env = dict(env0, MIRIFLAGS="-Zmiri-seed=%d %s%s" % (s, MIRI_FLAGS, extra))
             t0 = time.time()
             p = subprocess.Popen(["cargo", "+nightly", "miri", "run", "--offline", "--", str(s * 7919 + 1), str(threads), str(ops)],
                                  cwd=MIRI, env=env, stdout=subprocess.PIPE, stderr=subprocess.PIPE, text=True)
